@@ -140,13 +140,13 @@ def publish_body_contract(ctx, r, must):
             if not via_ok and errs and cfgutil.edges_dominate(b, oks + errs, bb):
                 # the error arm: must pass a comparison of the error kind
                 for sw in b.normal_blocks():
-                    c = cfgutil.cmp_true_edge(b, sw)
-                    if c is None or c[0] != "Eq":
+                    c = cfgutil.eq_edges(b, sw)
+                    if c is None:
                         continue
                     sl = Slicer(ctx.world, b)
-                    la = sl.leaves_of_operand(c[1]) | sl.leaves_of_operand(c[2])
+                    la = sl.leaves_of_operand(c[0]) | sl.leaves_of_operand(c[1])
                     if any(x[0] == "call" and x[1] == "std::io::Error::kind" for x in la) and \
-                            cfgutil.edge_dominates(b, (sw, c[3]), bb):
+                            cfgutil.edge_dominates(b, (sw, c[2]), bb):
                         via_err = True
             r.check(via_ok or via_err, "publish-ok-exit", b,
                     "an Ok return of %s lies behind %s" % (b.path, "the successful rename" if via_ok else
